@@ -8,6 +8,7 @@ import (
 	"os/exec"
 	"path/filepath"
 	"runtime/debug"
+	"runtime/pprof"
 	"strings"
 	"time"
 
@@ -45,6 +46,11 @@ func main() {
 	if len(os.Args) != 2 {
 		fmt.Fprintln(os.Stderr, "usage: gosym spec.json | gosym xcheck <solver-cmd> transcript.json...")
 		os.Exit(2)
+	}
+	if pf := os.Getenv("GOSYM_PROF"); pf != "" {
+		f, _ := os.Create(pf)
+		pprof.StartCPUProfile(f)
+		defer pprof.StopCPUProfile()
 	}
 	raw, err := os.ReadFile(os.Args[1])
 	if err != nil {
